@@ -38,8 +38,9 @@ fn drive<I: Interface>(rx: &mut I, remaining: &dyn Fn() -> usize, reset: &dyn Fn
     let mut entries = 0u64;
     loop {
         let was_empty = remaining() == 0;
-        reset();
+        reset(); reset_peak();
         let r = catch_unwind(AssertUnwindSafe(|| rx.try_get_packet()));
+        let pk = (peak() - base).max(0) as u64;
         let start = obs.len(); obs.push(0);
         let mut bad = false;
         match r {
@@ -50,6 +51,7 @@ fn drive<I: Interface>(rx: &mut I, remaining: &dyn Fn() -> usize, reset: &dyn Fn
         }
         obs.push(remaining() as u64);
         obs.push((live() - base).max(0) as u64);
+        obs.push(pk);
         obs[start] = (obs.len() - start - 1) as u64;
         entries += 1;
         if bad || was_empty { break; }
@@ -199,7 +201,8 @@ pub fn gen_rcv(r: &mut Rng, thorough: bool, cx: &mut Ctx) {
     {
         let p1 = Packet { is_error: false, device_address: 7, data: vec![1, 2, 3] }; let p2 = Packet { is_error: true, device_address: 9, data: (0..20).collect() };
         for link in 1..3u64 {
-            for pre in [vec![0u64, 0], vec![0, 0, 0, 0], vec![0, 3, 5, 1, 2], vec![0, 5, 4, 1, 0, 2, 1], vec![0, 26, 26, 224, 1, 1, 1, 20, 1, 1, 1, 1, 1, 1, 1, 1, 1, 1, 1, 1, 1, 1, 1, 1, 1, 1, 1, 1]].iter() {
+            let long: Vec<u64> = { let mut v = vec![0u64, 0]; for _ in 0..6 { v.extend_from_slice(&[0, 120]); v.extend((0..120).map(|i| 1 + (i % 200) as u64)); } v };
+            for pre in [long, vec![0u64, 0], vec![0, 0, 0, 0], vec![0, 3, 5, 1, 2], vec![0, 5, 4, 1, 0, 2, 1], vec![0, 26, 26, 224, 1, 1, 1, 20, 1, 1, 1, 1, 1, 1, 1, 1, 1, 1, 1, 1, 1, 1, 1, 1, 1, 1, 1, 1]].iter() {
                 let mut toks = pre.clone(); let np = toks.len();
                 packet_tokens(link, &p1, &mut toks); packet_tokens(link, &p2, &mut toks);
                 let mut meta = vec![count_tokens(link, &toks[np..])]; show_packet(&p1, &mut meta); show_packet(&p2, &mut meta);
